@@ -407,6 +407,11 @@ def run(pid, tier, seed):
             if badt:
                 rep.violation("wrong-time-field:%s" % lay_, "record %d is printed with time %s.%s, not its own" % badt[0], case.replay_record(rr))
                 continue
+            if not emit and idxs == [] and (rr.rc != 0 or b"ERROR" in rr.err):
+                # (C03's clause, for record files: an empty selection prints nothing and is not an error)
+                rep.violation("empty-is-error:%s" % lay_, "%s records %s, window [%s,%s] holds none of them, and the run calls it an error (rc=%s, %r)"
+                              % (lay_, recs, case.note["A"], case.note["B"], rr.rc, rr.err[:160]), case.replay_record(rr))
+                continue
             if idxs != list(emit):
                 lost = sorted(set(emit) - set(idxs))
                 if lost and sorted(idxs) == sorted(set(emit) - set(lost)) and ties:
